@@ -23,6 +23,31 @@ def run(prop, tier, seed, replay=None):
     if replay:
         with open(replay) as fh:
             obj = json.load(fh)
+        if obj.get("kind") == "localkv-trace":
+            # re-execute the recorded operations on the current tree and validate the fresh record
+            steps = []
+            for e in obj["events"]:
+                if e.get("a") == "Reset":
+                    continue
+                st = {"a": e["a"], "n": "n1"}
+                if e["a"] in ("Set", "SetTtl", "Delete", "DeleteTtl"):
+                    st.update(k=e.get("k", ""), v=e.get("v", ""))
+                if e["a"] == "Advance":
+                    st = {"a": "Advance", "d": e.get("d", 1)}
+                steps.append(st)
+            tpath = os.path.join(vlib.WORK, "tmp", f"localkv_replay_{os.getpid()}.ndjson")
+            with open(tpath, "w") as fh:
+                p = subprocess.run([binp, "exec", json.dumps(HCFG)], input=json.dumps({"steps": steps}) + "\n",
+                                   text=True, stdout=fh)
+            if p.returncode != 0:
+                raise vlib.ToolError("localkv exec failed")
+            ok, info = vlib.validate_trace("MC_TraceLocalKV.tla", "MC_TraceLocalKV.cfg", tpath, timeout=600)
+            os.remove(tpath)
+            if not ok:
+                res.violation(obj, "recorded reads are not a behaviour of the reference map")
+            res.coverage = {"states": 1, "transitions": len(steps), "traces_validated_against_impl": 1,
+                            "samples": [steps[:6]]}
+            return res.finish()
         line = json.dumps({"steps": obj["steps"], "expect": obj["expect"]}) + "\n"
         p = subprocess.run([binp, "replay", json.dumps(HCFG)], input=line, text=True,
                            stdout=subprocess.PIPE)
@@ -48,37 +73,47 @@ def run(prop, tier, seed, replay=None):
                       "reads differ from the reference map after " +
                       " ".join(s["a"] for s in o["steps"]))
 
-    # code -> spec
-    ntr = 60 if tier == "quick" else 1500
-    tdir = os.path.join(vlib.WORK, "tmp")
-    tpath = os.path.join(tdir, f"localkv_{tier}_{seed}.ndjson")
-    dcfg = dict(HCFG, vals=["x", "y"], advances=[1, 2, 3], seed=seed, traces=ntr, len=40)
-    with open(tpath, "w") as fh:
-        p = subprocess.run([binp, "drive", json.dumps(dcfg)], stdout=fh)
-    if p.returncode != 0:
-        raise vlib.ToolError("localkv drive failed")
-    nev = sum(1 for _ in open(tpath))
-    accepted, info = vlib.validate_trace("MC_TraceLocalKV.tla", "MC_TraceLocalKV.cfg", tpath,
-                                         timeout=1800)
+    # code -> spec: two op mixes -- uniform, and one in which most keys are waiting for collection at
+    # different instants while collection passes are frequent (every tick matters with a grace of 2)
+    ntr = 0
+    nev = 0
+    accepted = True
     sample_trace = []
-    with open(tpath) as fh:
-        for i, line in enumerate(fh):
-            if i < 4:
-                sample_trace.append(json.loads(line))
-    if not accepted:
-        at = info.get("rejected_at")
-        ctx = []
-        with open(tpath) as fh:
-            lines = fh.readlines()
-        if at:
-            # cut the offending trace (from its Reset) for the replay file
-            start = at - 1
-            while start > 0 and '"Reset"' not in lines[start]:
-                start -= 1
-            ctx = [json.loads(x) for x in lines[start:at]]
-        res.violation({"kind": "localkv-trace", "events": ctx, "tlc": info.get("errors", [])[:3]},
-                      "recorded reads are not a behaviour of the reference map")
-    os.remove(tpath)
+    profiles = [("uniform", [3, 2, 1, 1, 2, 1], [1, 2, 3], 60 if tier == "quick" else 1500, 40),
+                ("gcheavy", [1, 3, 2, 2, 3, 3], [1], 150 if tier == "quick" else 3000, 50)]
+    tdir = os.path.join(vlib.WORK, "tmp")
+    for (pname, weights, advs, pn, plen) in profiles:
+        tpath = os.path.join(tdir, f"localkv_{tier}_{seed}_{pname}.ndjson")
+        dcfg = dict(HCFG, vals=["x", "y"], advances=advs, seed=seed * 31 + len(pname), traces=pn, len=plen,
+                    weights=weights)
+        with open(tpath, "w") as fh:
+            p = subprocess.run([binp, "drive", json.dumps(dcfg)], stdout=fh)
+        if p.returncode != 0:
+            raise vlib.ToolError("localkv drive failed")
+        ntr += pn
+        nev += sum(1 for _ in open(tpath))
+        ok, info = vlib.validate_trace("MC_TraceLocalKV.tla", "MC_TraceLocalKV.cfg", tpath,
+                                       timeout=1800)
+        if not sample_trace:
+            with open(tpath) as fh:
+                for i, line in enumerate(fh):
+                    if i < 4:
+                        sample_trace.append(json.loads(line))
+        if not ok:
+            accepted = False
+            at = info.get("rejected_at")
+            ctx = []
+            with open(tpath) as fh:
+                lines = fh.readlines()
+            if at:
+                # cut the offending trace (from its Reset) for the replay file
+                start = at - 1
+                while start > 0 and '"Reset"' not in lines[start]:
+                    start -= 1
+                ctx = [json.loads(x) for x in lines[start:at]]
+            res.violation({"kind": "localkv-trace", "events": ctx, "tlc": info.get("errors", [])[:3]},
+                          f"recorded reads are not a behaviour of the reference map (op mix {pname})")
+        os.remove(tpath)
 
     res.coverage = {
         "states": m["distinct"], "transitions": m["generated"],
